@@ -566,3 +566,33 @@ PROPS["C07"] = dict(
                  "RawBoard's own public mutators on a free-standing RawBoard and the unsafe move_unchecked* functions are "
                  "out of scope (not safe calls on an accepted position)"],
 )
+
+
+# ----------------------------------------------------------------------------- libFuzzer job for C06 (thorough)
+
+def _parse_libfuzzer(text):
+    import re
+    execs, cov, corp = 0, 0, 0
+    for m in re.finditer(r"#(\d+): cov: (\d+) ft: (\d+) corp: (\d+)", text):
+        execs, cov, corp = max(execs, int(m.group(1))), max(cov, int(m.group(2))), max(corp, int(m.group(4)))
+    return dict(evaluations=execs, counters={"libfuzzer-executions": execs, "max:libfuzzer-coverage-edges": cov,
+                                             "max:libfuzzer-corpus-size": corp}, tags={}, samples=[], violations=[], notes=[])
+
+
+def fuzz_job(ctx, seconds, forks):
+    fuzz_dir = os.path.join(HARNESS, "fuzz")
+    scratch = os.path.join(ctx["TARGET"], "fuzz-corpus")
+    art = os.path.join(ctx["TARGET"], "fuzz-artifacts") + os.sep
+    os.makedirs(scratch, exist_ok=True)
+    os.makedirs(art, exist_ok=True)
+    argv = ["cargo", "+nightly", "fuzz", "run", "--target-dir", os.path.join(ctx["TARGET"], "fuzz"), "fen_parse", scratch,
+            os.path.join(fuzz_dir, "corpus", "fen_parse"), "--", f"-max_total_time={seconds}", "-timeout=10",
+            f"-fork={forks}", f"-artifact_prefix={art}", f"-seed={ctx['seed']}"]
+    return dict(name="C06-libfuzzer", argv=argv, flavour="libfuzzer-asan", cwd=fuzz_dir, external=_parse_libfuzzer,
+                env=dict(CARGO_NET_OFFLINE="true"))
+
+
+_c06_core = PROPS["C06"]["jobs"]
+PROPS["C06"]["jobs"] = lambda ctx: _c06_core(ctx) + ([fuzz_job(ctx, 600, 8)] if ctx["tier"] == "thorough" else [])
+PROPS["C06"]["assumptions"].append("thorough tier adds a coverage-guided libFuzzer run (cargo-fuzz, ASan + debug assertions) of "
+                                   "harness/fuzz/fuzz_targets/fen_parse.rs with the same post-parse oracle")
